@@ -407,4 +407,69 @@ theorem round_trip_reads_as_ren_elide (e : PEnv) (m : IdMaps) (ρ : Ren) (body :
   cases ht
   exact output_reads_as_ren_elide e m ρ body ops u ho ha
 
+/-! ## a class of operators for which `agree` needs no evaluation -/
+
+def noRefs (args : List Arg) : Prop := ∀ a ∈ args, ∀ sp i, a ≠ Arg.ref sp i
+
+theorem wrapOffsets_noRefs : ∀ (args : List Arg), noRefs args → wrapOffsets args = args
+  | [], _ => rfl
+  | [a], _ => by simp [wrapOffsets]
+  | [a, b], _ => by simp [wrapOffsets]
+  | a :: b :: c :: r, h => by
+    have h3 : ∀ sp i, c ≠ Arg.ref sp i := h c (by simp)
+    have ih := wrapOffsets_noRefs (b :: c :: r) (fun x hx => h x (List.mem_cons_of_mem _ hx))
+    cases a <;> cases b <;> cases c <;> simp_all [wrapOffsets]
+
+theorem pMapArgs_noRefs (e : PEnv) : ∀ (args : List Arg), noRefs args → pMapArgs e args = some args
+  | [], _ => rfl
+  | a :: r, h => by
+    have ih := pMapArgs_noRefs e r (fun x hx => h x (List.mem_cons_of_mem _ hx))
+    have ha := h a (by simp)
+    cases a with
+    | ref sp i => exact absurd rfl (ha sp i)
+    | num n => simp [pMapArgs, ih]
+    | imm t => simp [pMapArgs, ih]
+    | bt b => simp [pMapArgs, ih]
+
+theorem mapArgs_noRefs (m : IdMaps) : ∀ (args : List Arg), noRefs args → mapArgs m args = some args
+  | [], _ => rfl
+  | a :: r, h => by
+    have ih := mapArgs_noRefs m r (fun x hx => h x (List.mem_cons_of_mem _ hx))
+    have ha := h a (by simp)
+    cases a with
+    | ref sp i => exact absurd rfl (ha sp i)
+    | num n => simp [mapArgs, ih]
+    | imm t => simp [mapArgs, ih]
+    | bt b => simp [mapArgs, ih]
+
+theorem ren_op_noRefs (ρ : Ren) (o : Op) (h : noRefs o.args) : ρ.op o = o := by
+  unfold Ren.op
+  split
+  · split
+    · rename_i sp f heq
+      exact absurd rfl (h (.ref sp f) (by rw [heq]; simp) sp f)
+    · rfl
+  · split
+    · split
+      · rename_i sp y t heq
+        exact absurd rfl (h (.ref sp y) (by rw [heq]; simp) sp y)
+      · rfl
+    · split
+      · split
+        · rename_i sp x heq
+          exact absurd rfl (h (.ref sp x) (by rw [heq]; simp) sp x)
+        · rfl
+      · rfl
+
+/-- **operators without entity operands agree with every renumbering**: constants, arithmetic,
+    comparisons, conversions, `drop`, `select`, … — whatever the environment, the maps and `ρ` -/
+theorem agree_of_noRefs (e : PEnv) (m : IdMaps) (ρ : Ren) (o : Op) (hs : structuralName o.name = false)
+    (hc : o.name ≠ "Br" ∧ o.name ≠ "BrIf" ∧ o.name ≠ "BrTable" ∧ o.name ≠ "Return" ∧ o.name ≠ "Unreachable" ∧
+      o.name ≠ "Nop") (hr : noRefs o.args) : agreeI e m ρ (.op o) = true := by
+  obtain ⟨h1, h2, h3, h4, h5, h6⟩ := hc
+  simp only [agreeI, hs, Bool.not_false, Bool.true_and, beq_iff_eq, outLeafOps, outLeaf, h1, h2, h3, h4, h5, h6,
+    if_false, Bool.or_self, Bool.false_eq_true, outArgs, wrapOffsets_noRefs _ hr, pMapArgs_noRefs e _ hr,
+    Option.bind_some, mapArgs_noRefs m _ hr, Option.map_some, List.map_cons, List.map_nil, ren_op_noRefs ρ o hr]
+  simp
+
 end Walrus
